@@ -3,6 +3,7 @@ PROP = dict(
         workloads=[
             dict(name="lend-histories", go_test="TestC08", runner="C08",
                  env=dict(quick=dict(VERIF_CASES=250), thorough=dict(VERIF_CASES=6000))),
+            dict(name="lend-witness", go_test="TestC08Witness", runner="C08"),
         ],
         rule="case = one history of 20-50 messages (lend / deposit / withdraw / close-lend / borrow / borrow-alternate / deposit-borrow / draw / "
              "repay / close-borrow / calculate-interest-and-rewards) by 3 users over 2 pools x 3 assets with 12 same-pool and 5 cross-pool pairs "
